@@ -349,6 +349,22 @@ def build_pipe(r, tier):
                                      "func g(a) { return a * 2 } func f(a) { return g(a) + 1 } $y9 = f($i)", "func g(a) { return a * 3 } func f(a) { return g(a) - 1 } $y0 = f($i)",
                                      "func f(k, v) { return {toupper(k): v} } $y4 = joink(apply({\"q\": $i}, f), \",\")", "func f(k, v) { return {k . k: v} } $y3 = joink(apply({\"q\": $i}, f), \",\")"]]
         verbs = r.sample(same, r.choice([2, 2, 3]))
+    if r.chance(0.12):
+        # map- and array-valued fields (JSON carries them through a pipe unchanged): a stage that hands a collection from
+        # one record to another, then stages that edit collections in place
+        c = gen.alias_coll_case(r, tier)
+        args = c["args"]
+        segs, cur = [], []
+        for a in args[3:-1]:
+            if a == "then":
+                segs.append(cur)
+                cur = []
+            else:
+                cur.append(a)
+        segs.append(cur)
+        if all(pipe_safe(v) for v in segs) and not any(v[0] in ("flatten", "bootstrap", "repeat") for v in segs):
+            return {"kind": "pipe", "verbs": segs, "text": c["files"]["in0.txt"], "cseed": r.randint(1, 1 << 40), "nconf": 3 if tier == "quick" else 5,
+                    "preempt": True}
     recs = gen.gen_records(r, r.choice([0, 1, 3, 8, 25, 70]), sparse=r.chance(0.3))
     text = gen.to_json(recs)
     return {"kind": "pipe", "verbs": verbs, "text": text, "cseed": r.randint(1, 1 << 40), "nconf": 2 if tier == "quick" else 4}
@@ -368,6 +384,10 @@ def eval_pipe(case, chk):
         case["configs"] = [[{"sched": random_sched(rng, None), "batch": rng.choice([None, 1, 2, 3, 7]), "rtseed": rng.randint(1, 1 << 30),
                              "chunk": ({"max": rng.choice([1, 3, 64]), "mode": "random", "seed": rng.randint(1, 99999)} if rng.chance(0.4) else None)}
                             for _ in range(len(case["verbs"]) + 1)] for _ in range(case["nconf"])]
+        if case.get("preempt"):
+            for cfgset in case["configs"]:
+                cfgset[0]["sched"] = dict(cfgset[0]["sched"], preempt=rng.choice([2, 5, 20]))
+                cfgset[0]["batch"] = rng.choice([1, 2, 3])
     text = case["text"].encode()
 
     def run(args, cfg, files=None, stdin=None):
